@@ -2,7 +2,7 @@
    message body by the flagged elements (C08), and what each element contributes to the dictionary (C16). *)
 From Coq Require Import List Arith NArith ZArith Bool Lia.
 From Coq Require Import Strings.Byte.
-Require Import CU.model.Prim CU.model.Types CU.model.Unicode CU.model.Codec CU.model.Dates CU.model.Card CU.model.Iso CU.spec.IsoSpec.
+Require Import CU.model.Prim CU.model.Types CU.model.Unicode CU.model.Regex CU.model.Codec CU.model.Dates CU.model.Card CU.model.Iso CU.spec.IsoSpec.
 Require Import CU.proofs.NumProofs.
 Import ListNotations.
 Open Scope nat_scope.
@@ -114,7 +114,7 @@ Proof.
 Qed.
 
 (* sub-element keys *)
-Definition is_sub (k : key) : bool := match k with KPDS _ | KTAG _ | KICC => true | _ => false end.
+Definition is_sub (k : key) : bool := match k with KPDS _ | KTAG _ | KICC | KOther _ => true | _ => false end.
 Definition subkeys (d : dict) : Prop := Forall (fun kv => is_sub (fst kv) = true) d.
 
 Lemma if_dset_sub d k v : subkeys d -> is_sub k = true -> subkeys (dset d k v).
@@ -209,6 +209,18 @@ Definition fbody (bit : nat) (c : fieldcfg) (D : bytes) (cd : codec) (fl : nat) 
       | VStr t => do sub <- pds_to_dict t; Ok (dupdate [(KDE bit, v)] sub, fl + ls)
       | _ => Unmodelled
       end
+    | PDE43 =>
+      match v with
+      | VStr t =>
+        match de43_fields (f_de43 c) t with
+        | Some gs => Ok (dupdate [(KDE bit, v)] (map (fun nv => (KOther (fst nv), VStr (snd nv))) gs), fl + ls)
+        | None => Unmodelled
+        end
+      | _ => match f_de43 c with
+             | D43None => Ok ([(KDE bit, v)], fl + ls)
+             | _ => Raise EType
+             end
+      end
     | _ => Ok ([(KDE bit, v)], fl + ls)
     end
   end.
@@ -250,11 +262,11 @@ Lemma fbody_ok bit c D cd fl es inc : fbody bit c D cd fl = Ok (es, inc) ->
   inc = fl + psize (f_type c) /\
   exists v rest, es = (KDE bit, v) :: rest /\ subkeys rest /\
     elem_value c cd (slice (psize (f_type c)) (psize (f_type c) + fl) D) = Ok v /\
-    (f_proc c <> PICC -> f_proc c <> PPDS -> rest = []).
+    (f_proc c <> PICC -> f_proc c <> PPDS -> f_proc c <> PDE43 -> rest = []).
 Proof.
   unfold fbody, elem_value. set (raw := slice (psize (f_type c)) (psize (f_type c) + fl) D).
   intros H. destruct (f_proc c) eqn:EP.
-  1, 2, 3, 6:
+  1, 2, 3:
     apply if_bind_ok in H; destruct H as (s0 & Hs & H); apply if_catch_ok in Hs;
     apply if_bind_ok in H; destruct H as (v & Hv & H); apply if_catch_ok in Hv;
     inversion H; subst; split; [reflexivity|]; exists v, []; rewrite Hs; cbn [bind];
@@ -274,6 +286,34 @@ Proof.
     destruct (if_entries_shape bit (VStr t) sub Hsub) as (rest & Hr & Hk).
     exists (VStr t), rest. split; [exact Hr|]. split; [exact Hk|]. rewrite Hs. cbn [bind].
     split; [exact Hv|]. congruence.
+  - (* PDE43 *)
+    apply if_bind_ok in H. destruct H as (s0 & Hs & H). apply if_catch_ok in Hs.
+    apply if_bind_ok in H. destruct H as (v & Hv & H). apply if_catch_ok in Hv.
+    rewrite Hs. cbn [bind].
+    assert (Hplain : Ok ([(KDE bit, v)], fl + psize (f_type c)) = Ok (es, inc) ->
+      inc = fl + psize (f_type c) /\
+      exists v0 rest, es = (KDE bit, v0) :: rest /\ subkeys rest /\ string_to_pytype s0 c = Ok v0 /\
+        (PDE43 <> PICC -> PDE43 <> PPDS -> PDE43 <> PDE43 -> rest = [])).
+    { intros H'. inversion H'; subst. split; [reflexivity|]. exists v, [].
+      split; [reflexivity|]. split; [constructor|]. split; [exact Hv|reflexivity]. }
+    destruct v as [t|z|bb|dd].
+    + destruct (de43_fields (f_de43 c) t) as [gs|]; [|discriminate H]. inversion H; subst.
+      split; [reflexivity|].
+      assert (Hsub : subkeys (map (fun nv : str * str => (KOther (fst nv), VStr (snd nv))) gs)).
+      { unfold subkeys. apply Forall_forall. intros kv Hin. apply in_map_iff in Hin.
+        destruct Hin as (nv & E & _). subst kv. reflexivity. }
+      destruct (if_entries_shape bit (VStr t) _ Hsub) as (rest & Hr & Hk).
+      exists (VStr t), rest. split; [exact Hr|]. split; [exact Hk|]. split; [exact Hv|]. congruence.
+    + destruct (f_de43 c); try discriminate H; apply Hplain; exact H.
+    + destruct (f_de43 c); try discriminate H; apply Hplain; exact H.
+    + destruct (f_de43 c); try discriminate H; apply Hplain; exact H.
+Qed.
+
+(* a pattern inside the modelled fragment always splits (possibly into nothing) *)
+Lemma if_de43_modelled d t : d <> D43Unsupported -> exists gs, de43_fields d t = Some gs.
+Proof.
+  intros H. destruct d as [|p|]; cbn [de43_fields]; [eexists; reflexivity| |contradiction H; reflexivity].
+  destruct (re_match p t); eexists; reflexivity.
 Qed.
 
 (* and when the body step succeeds *)
@@ -283,19 +323,24 @@ Lemma fbody_complete bit c D cd fl v :
   | PPDS, VStr t => exists sub, pds_to_dict t = Ok sub
   | PPDS, _ => False
   | PICC, VBytes r => f_ptype c = PTStr /\ exists sub, icc_to_dict r = Ok sub
+  | PDE43, VStr _ => f_de43 c <> D43Unsupported
+  | PDE43, _ => f_de43 c = D43None
   | _, _ => True
   end ->
   exists es, fbody bit c D cd fl = Ok (es, fl + psize (f_type c)).
 Proof.
   unfold fbody, elem_value. set (raw := slice (psize (f_type c)) (psize (f_type c) + fl) D).
   intros H S. destruct (f_proc c) eqn:EP.
-  1, 2, 3, 6:
+  1, 2, 3:
     apply if_bind_ok in H; destruct H as (s0 & Hs & H); rewrite Hs; cbn [catch bind];
     rewrite H; cbn [catch bind]; eexists; reflexivity.
   - inversion H; subst. destruct S as (Hp & sub & Hsub). rewrite Hp, Hsub. cbn [bind]. eexists; reflexivity.
   - apply if_bind_ok in H. destruct H as (s0 & Hs & H). rewrite Hs. cbn [catch bind].
     rewrite H. cbn [catch bind]. destruct v as [t|z|bb|dd]; try contradiction.
     destruct S as (sub & Hsub). rewrite Hsub. cbn [bind]. eexists; reflexivity.
+  - apply if_bind_ok in H. destruct H as (s0 & Hs & H). rewrite Hs. cbn [catch bind].
+    rewrite H. cbn [catch bind]. destruct v as [t|z|bb|dd]; try (rewrite S; eexists; reflexivity).
+    destruct (if_de43_modelled (f_de43 c) t S) as (gs & Hgs). rewrite Hgs. eexists; reflexivity.
 Qed.
 
 (* ====================================================================== the element loop *)
@@ -356,7 +401,7 @@ Lemma field_rel_facts f es : field_rel f es ->
   exists c v rest, cfg_get cfg (fr_bit f) = Some c /\ declared c cd data f /\
     elem_value c cd (slice (fr_off f + fr_plen f) (fr_end f) data) = Ok v /\
     es = (KDE (fr_bit f), v) :: rest /\ subkeys rest /\
-    (f_proc c <> PICC -> f_proc c <> PPDS -> rest = []).
+    (f_proc c <> PICC -> f_proc c <> PPDS -> f_proc c <> PDE43 -> rest = []).
 Proof.
   intros (c & fl0 & Hc & Hl & Hp & Hfl & Hb).
   destruct (fbody_ok _ _ _ _ _ _ _ Hb) as (_ & v & rest & He & Hs & Hv & Hr).
@@ -484,6 +529,8 @@ Lemma if_field_complete cfg cd data f :
                | PPDS, VStr t => exists sub, pds_to_dict t = Ok sub
                | PPDS, _ => False
                | PICC, VBytes r => f_ptype c = PTStr /\ exists sub, icc_to_dict r = Ok sub
+               | PDE43, VStr _ => f_de43 c <> D43Unsupported
+               | PDE43, _ => f_de43 c = D43None
                | _, _ => True
                end) ->
   exists c es, cfg_get cfg (fr_bit f) = Some c /\
@@ -515,6 +562,8 @@ Lemma c08_complete : forall cfg cd hexbm b bm frames,
                     | PPDS, VStr t => exists sub, pds_to_dict t = Ok sub
                     | PPDS, _ => False
                     | PICC, VBytes r => f_ptype c = PTStr /\ exists sub, icc_to_dict r = Ok sub
+                    | PDE43, VStr _ => f_de43 c <> D43Unsupported
+                    | PDE43, _ => f_de43 c = D43None
                     | _, _ => True
                     end) frames ->
   exists d, loads cfg cd hexbm b = Ok d.
